@@ -136,8 +136,11 @@ Proof. exact interop. Qed.
 Print Assumptions C14_interop.
 
 (* the property predicate the check evaluates on the implementation's answers holds
-   for the model on every input (clock bracket ordered; storage contract; helper-built
-   assertions carry an accepted algorithm - see C14_interop_eddsa_refuted) *)
+   for the model on every input (clock bracket ordered; storage contract; what the
+   helpers are assumed to build - [helper_built_ok]: accepted algorithm (see
+   C14_interop_eddsa_refuted), sub = iss, the configured issuer in aud; the run checks
+   every real helper path against exactly this, the aud clause being what a helper that
+   addresses only the token endpoint breaks) *)
 Theorem C14_spec_holds :
   forall i, wf i = true -> helper_alg_accepted i = true -> spec i (model i) = true.
 Proof. exact spec_model. Qed.
